@@ -65,6 +65,7 @@ def _worker(name):
         done, fails = harness.run_concrete(c, values=cx['values'], n=1)
         reproduced = bool(fails) and not fails[0].get('rejected') and (
             cx['name'] in fails[0].get('names', []) or
+            (cx['name'].startswith('exception:') and bool(fails[0].get('names'))) or
             any(n.startswith('exception:') for n in fails[0].get('names', [])))
         out['replays'].append({'obligation': cx['name'], 'values': cx['values'],
                                'reproduced': reproduced, 'nice': cx.get('nice'),
@@ -164,6 +165,9 @@ def run_check(prop, cases, level_text, assumptions, outside, predicates=None, ar
     if s:
       if s['status'] == 'harness_error':
         problems.append('%s: harness error: %s' % (cname, s['error']))
+      elif s['status'] == 'path_exception' and not any(
+              rp['reproduced'] and rp['obligation'].startswith('exception:') for rp in r['replays']):
+        problems.append('%s: %s (did not reproduce on the real library)' % (cname, s['error']))
       elif s['status'] == 'inconclusive':
         problems.append('%s: inconclusive: %s' % (cname, s['error']))
       for rp in r['replays']:
